@@ -13,16 +13,16 @@ OUTSIDE = ["NUMERIC agreement with the textbook filter (rounding, conditioning),
 KANI_MODULES = ["c07_kalman"]
 K = "similari::utils::kalman::"
 KANI = [
-    KH("c07_kalman::c07_box_cost", "quick", 120,
+    KH("c07_kalman::c07_box_cost", "quick", 900,
        "box filter: direct cost gates exactly at CHI2INV95[4] (5 dof); inverted = 100 - direct",
        "every non-NaN f32 d >= 0 (2^31 values)", [K + "kalman_2d_box::Universal2DBoxKalmanFilter::calculate_cost"]),
-    KH("c07_kalman::c07_point_cost", "quick", 120,
+    KH("c07_kalman::c07_point_cost", "quick", 900,
        "point filter: direct cost gates exactly at CHI2INV95[1] (2 dof); inverted = 100 - direct",
        "every non-NaN f32 d >= 0 (2^31 values)", [K + "kalman_2d_point::Point2DKalmanFilter::calculate_cost"]),
-    KH("c07_kalman::c07_vec_cost", "quick", 200,
+    KH("c07_kalman::c07_vec_cost", "quick", 900,
        "vector cost = pointwise point-filter cost, both modes",
        "lengths 0..=3, every non-NaN f32 d >= 0, unwind 5", [K + "kalman_2d_point_vec::Vec2DKalmanFilter::calculate_cost"]),
-    KH("c07_kalman::c07_state_to_box", "quick", 400,
+    KH("c07_kalman::c07_state_to_box", "quick", 900,
        "Universal2DBox::try_from(state): angle 0 -> None, xc/yc/angle/aspect/height copied, accessors read the right slots",
        "all finite f32 means (10 components), unwind 102 (nalgebra 10x10 allocate_from_iterator)",
        [K + "TryFrom<KalmanState<X>> for Universal2DBox", K + "KalmanState::mean_pos_xc/yc/mean_vel_xc/yc"]),
